@@ -110,6 +110,25 @@ func c05aIsMapMake(e ast.Expr) bool {
 	return false
 }
 
+// c05aMapValueType: the value type T of make(map[K]T) / map[K]T{} ("" if e is not such an expression)
+func c05aMapValueType(e ast.Expr) string {
+	var mt *ast.MapType
+	switch x := e.(type) {
+	case *ast.CallExpr:
+		if c05Ident(x.Fun) == "make" && len(x.Args) >= 1 {
+			mt, _ = x.Args[0].(*ast.MapType)
+		}
+	case *ast.CompositeLit:
+		if len(x.Elts) == 0 {
+			mt, _ = x.Type.(*ast.MapType)
+		}
+	}
+	if mt == nil {
+		return ""
+	}
+	return c05aSrc(mt.Value)
+}
+
 func c05aAnd(a, b string) string {
 	if a == "" {
 		return b
@@ -311,6 +330,14 @@ func (l *c05aLoop) assign(a *ast.AssignStmt, pc string) error {
 			l.effects = append(l.effects, c05aEffect{kind: "set", target: id.Name, cond: pc})
 			return nil
 		}
+		if v := l.h.vars[id.Name]; v != nil && v.kind == "valmap" {
+			k, val, err := l.value(rhs)
+			if err != nil {
+				return err
+			}
+			l.effects = append(l.effects, c05aEffect{kind: k, target: "@var." + id.Name, cond: pc, value: val})
+			return nil
+		}
 		return l.h.err("loop assignment %s", c05aSrc(lhs))
 	}
 	// rec.F[t.nodeKey] = value
@@ -494,7 +521,23 @@ func (h *c05aHandler) rangeTasks(rs *ast.RangeStmt) error {
 			v.expr = e.target
 		case "put", "sel":
 			p := strings.SplitN(e.target, ".", 2)
-			rec := h.vars[p[0]]
+			var rec *c05aVal
+			if p[0] == "@var" {
+				// a local map: keep its contents in a one-field record
+				lv := h.vars[p[1]]
+				rec = &c05aVal{kind: "rec", fields: map[string]string{p[1]: lv.expr}}
+				defer func(lv *c05aVal, rec *c05aVal, name string) { lv.expr = rec.fields[name] }(lv, rec, p[1])
+			} else {
+				rec = h.vars[p[0]]
+				if a := rec.fields[p[1]]; strings.HasPrefix(a, "@map:") {
+					// the field aliases a local map
+					lv := h.vars[a[5:]]
+					name := a[5:]
+					rec = &c05aVal{kind: "rec", fields: map[string]string{name: lv.expr}}
+					p = []string{"@var", name}
+					defer func(lv *c05aVal, rec *c05aVal, name string) { lv.expr = rec.fields[name] }(lv, rec, name)
+				}
+			}
 			old := rec.fields[p[1]]
 			if e.kind == "put" {
 				rec.fields[p[1]] = fmt.Sprintf("puts (%s) (map (fun t => (tk_key t, %s)) (%s))", old, e.value, sel)
@@ -576,6 +619,8 @@ func (h *c05aHandler) fieldValue(typ, f string, e ast.Expr) (string, error) {
 			return v.expr, nil
 		case f == "SkipPreHandler" && v.kind == "keyset":
 			return "@set:" + id, nil
+		case (f == "Inputs" || f == "SubGraphs") && v.kind == "valmap":
+			return "@map:" + id, nil
 		}
 		return "", h.err("%s.%s: %s", typ, f, id)
 	}
@@ -703,7 +748,12 @@ func (h *c05aHandler) stmt(s ast.Stmt, rest []ast.Stmt) (consumedAll bool, err e
 			if n == "" || h.vars[n] != nil || c05aReserved[n] {
 				return false, h.err("variable %s", n)
 			}
-			h.vars[n] = &c05aVal{kind: "keyset", expr: "[]"}
+			if c05aMapValueType(x.Rhs[0]) == "bool" {
+				h.vars[n] = &c05aVal{kind: "keyset", expr: "[]"}
+			} else {
+				// a map built in a local and handed to a literal later (a Go map is a reference: the literal sees later puts)
+				h.vars[n] = &c05aVal{kind: "valmap", expr: "[]"}
+			}
 			return false, nil
 		}
 		// cp := &checkpoint{...} / intInfo := &InterruptInfo{...}
@@ -917,7 +967,7 @@ func (h *c05aHandler) field(rec, f, dflt string) string {
 	if v == "@chans" {
 		return h.chans
 	}
-	if strings.HasPrefix(v, "@set:") {
+	if strings.HasPrefix(v, "@set:") || strings.HasPrefix(v, "@map:") {
 		return h.vars[v[5:]].expr
 	}
 	return v
